@@ -87,14 +87,21 @@ def atoms : Formula → List String
 
 /-- does the input occur as a direct operand of multiply / divide / subtract / add?  Those are
     the calls in which `unyt_array.__array_ufunc__` (and `Unit.__mul__`) refuse a unit with an
-    offset (°C, °F: `InvalidUnitOperation`); `power` and `sqrt` are *not* refused — the unit rule
-    `u ** p` drops the offset silently. -/
+    offset (°C, °F: `InvalidUnitOperation`); for `power` and `sqrt` see `xInPow`. -/
 def xInArith : Formula → Bool
   | .atom _ => false
   | .lit _ => false
   | .mul a b | .div a b | .sub a b | .add a b =>
     a == .atom "x" || b == .atom "x" || a.xInArith || b.xInArith
   | .sqrt a | .pow a _ => a.xInArith
+
+/-- does the input occur as the direct operand of `power` / `sqrt`?  Whether those calls refuse a
+    unit with an offset depends on `Unit.__pow__` (regenerated flag `Generated.powRefuses`). -/
+def xInPow : Formula → Bool
+  | .atom _ => false
+  | .lit _ => false
+  | .mul a b | .div a b | .sub a b | .add a b => a.xInPow || b.xInPow
+  | .sqrt a | .pow a _ => a == .atom "x" || a.xInPow
 
 /-- a syntactic sufficient condition for "the value is 0 when the input is 0" (over ℝ, where
     `0 / b = 0`): used to extend the Lorentz inverse law to the end point `v = 0` -/
@@ -433,15 +440,12 @@ def acceptsParams (reg : List EquivRec) (equivalence : Option String) (names : L
     the final step converts to `target`, this is the formula evaluated on the SI magnitude
     followed by the ordinary conversion from the coherent SI unit of the new dimension.
     An input unit with an offset (°C, °F) is refused by the first multiply/divide/subtract/add
-    that touches it; a chain that only ever raises the input to a power (`effective_temperature`,
-    temperature → flux) is *not* refused and works on the bare reading, offset dropped.
-    `uSelf` is the coefficient `(u * 1).simplify().as_coeff_unit()[0]` of the input's own unit
-    expression (`≠ 1` when it contains two atoms of the same dimension, e.g. `K*cm/angstrom`;
-    it belongs to the unit algebra, so it is an input here): with `out=x`, the post-multiplication
-    `multiply(out, mul, out=out)` of `unyt_array.__array_ufunc__` re-enters itself for such a
-    unit until Python raises `RecursionError` (a `RuntimeError`), so every in-place chain fails. -/
-def convertValue [OfBits K] (pre : Prefixes K) (t : Lut K) (reg : List EquivRec)
-    (consts supplied : List (String × K)) (m : Mode) (u : UnitV K) (uSelf : K) (xv : K)
+    that touches it.  `powRefuses` says what `power`/`sqrt` do with such a unit in the library
+    being checked (`Unit.__pow__`; regenerated on every run): `some err` = they raise `err`,
+    `none` = they drop the offset silently, so that a chain that only ever raises the input to a
+    power (`effective_temperature`, temperature → flux) works on the bare reading. -/
+def convertValue [OfBits K] (powRefuses : Option Err) (pre : Prefixes K) (t : Lut K)
+    (reg : List EquivRec) (consts supplied : List (String × K)) (m : Mode) (u : UnitV K) (xv : K)
     (target : UnitV K) (equivalence : Option String) : Except Err K :=
   match inUnitsRoute reg m u.dim target.dim equivalence with
   | .error e => .error e
@@ -452,7 +456,7 @@ def convertValue [OfBits K] (pre : Prefixes K) (t : Lut K) (reg : List EquivRec)
       let params := effectiveParams reg equivalence supplied
       if !(f.atoms.all (bound consts params)) then .error .Other
       else if u.offset != 0 && f.xInArith then .error .InvalidUnitOperation
-      else if m == .inplace && uSelf != 1 then .error .RuntimeError
+      else if u.offset != 0 && f.xInPow && powRefuses.isSome then .error (powRefuses.getD .Other)
       else
         let si := xv * u.scale
         let y := f.eval (mkEnv consts params si)
@@ -522,11 +526,12 @@ def Branch.dimOk (cd : String → Option Dim) (b : Branch) : Bool :=
   | some f => f.dimOf (fun a => if a = "x" then some b.src else cd a) == some b.dst
   | none => false
 
-/-- every chain of the equivalence refuses an input unit with an offset -/
-def EquivRec.refusesOffsetInput (e : EquivRec) : Bool :=
+/-- every chain of the equivalence refuses an input unit with an offset (`pow`: whether
+    `power`/`sqrt` refuse such units) -/
+def EquivRec.refusesOffsetInput (pow : Bool) (e : EquivRec) : Bool :=
   (orderedPairs e.dims).all (fun p =>
     match e.modeFormula .copy p.1 p.2, e.modeFormula .inplace p.1 p.2 with
-    | some f, some g => f.xInArith && g.xInArith
+    | some f, some g => (f.xInArith || (pow && f.xInPow)) && (g.xInArith || (pow && g.xInPow))
     | _, _ => false)
 
 /-- dimension of an atom: constants from the regenerated table, keyword parameters are numbers -/
